@@ -644,7 +644,28 @@ def risky_finalisation(rnd, cfg):
     return text, {"arch:risky_finalisation", "illposed:finalisation_may_fail", "family:" + fam, "start:prefix", "units:3"}
 
 
+def comb_dormant(rnd, cfg):
+    """Comb / graft block: every unit carries a dormant graft point (descriptor of weight 0, own id) that only the final capping
+    closes with an end group; the chain itself runs on through a non-empty right terminal."""
+    u = rnd.choice(["CC({0})", "CC(C)({0})", "C(C{0})C", "[Si](C)({0})O", "CC(c1ccc({0})cc1)"])
+    gid = rnd.choice(["1", "2", "7"])
+    unit = "[<]" + u.format("[$" + gid + rnd.choice(["|0|", "|0.0|", "|0|", "|0.001|"]) + "]") + "[>]"
+    ends = ["[$" + gid + "]" + rnd.choice(["Br", "C", "OC", "[H]"])]
+    if rnd.random() < 0.5:
+        ends.append("[<]" + rnd.choice(["Cl", "F"]))
+    T = rnd.choice([80, 150, 250])
+    dist, fam = make_dist(rnd, 40.0, T / 40.0, cfg.get("family"), cfg.get("safe_dist", False))
+    text = rnd.choice(["[H]", "CCC", "OC"]) + "{[>] " + unit + " ; " + ", ".join(ends) + " [<]}" + dist
+    tags = {"arch:comb_dormant", "family:" + fam, "start:prefix", "weights:zero_among_positive"}
+    if rnd.random() < 0.4:
+        dist2, fam2 = make_dist(rnd, 60.0, 2, cfg.get("family"), cfg.get("safe_dist", False))
+        text += "{[>] [<]OCCO[>] [<]}" + dist2
+        tags.add("family:" + fam2)
+    return text + rnd.choice(["[H]", "N", "C"]), tags
+
+
 ARCHETYPES = {
+    "comb_dormant": comb_dormant,
     "risky_finalisation": risky_finalisation,
     "linear_directed": linear_directed,
     "undirected": undirected,
@@ -659,7 +680,7 @@ ARCHETYPES = {
     "branched_lists": branched_lists,
 }
 WEIGHTS = {
-    "risky_finalisation": 0.6, "linear_directed": 5, "undirected": 3, "step_growth": 2, "alternating_ids": 2, "star": 2, "hyperbranched": 2,
+    "comb_dormant": 0.8, "risky_finalisation": 0.6, "linear_directed": 5, "undirected": 3, "step_growth": 2, "alternating_ids": 2, "star": 2, "hyperbranched": 2,
     "graft_lists": 2, "end_transition": 1, "multiblock": 4, "segmented": 1, "branched_lists": 2,
 }
 
